@@ -229,7 +229,7 @@ impl Prop for C12 {
         format!(
             "every key history of length <= L (L=4 quick, 5 thorough) over a {}-symbol alphabet of the synthetic layout with one representative of every \
              character class the rules distinguish (incl. multi-code-point values), under all 16 settings of auto-vowel/auto-chandra/traditional/old-reph, \
-             every step judged against the executable rule model; each history is followed by a backspace chain down to empty; plus random histories of \
+             every step judged against the executable rule model; every distinct value of the layout file (about 190, incl. every sign, vowel, consonant and mark of the Bengali block) after every prefix of length <= 1 (quick) / 2 (thorough) over that alphabet; each history is followed by a backspace chain down to empty; plus random histories of \
              length 4-7 and 10-30 with 20% backspaces. distinct_nontrivial = distinct (text before, key value, options) triples in which a non-append rule fired and was compared.",
             ALPHABET.len()
         )
@@ -252,7 +252,7 @@ impl Prop for C12 {
             ("rule.zofola-after-bare-ra", 50), ("rule.auto-vowel-at-start", 50), ("rule.auto-vowel-after-vowel", 50),
             ("rule.auto-vowel-after-punctuation", 50), ("rule.auto-chandra", 50), ("rule.hasanta+sign=vowel", 50),
             ("rule.double-hasanta", 50), ("rule.hasanta+au-mark", 50), ("rule.traditional-kar", 50), ("rule.append", 1000),
-            ("backspaces_judged", 1000),
+            ("backspaces_judged", 1000), ("every_layout_value_after_short_prefixes", 50_000),
         ]
     }
     fn run_shard(&self, env: &Env, out: &mut Out) {
@@ -312,6 +312,56 @@ impl Prop for C12 {
                     }
                 }
             }
+        }
+        // every value of the layout file after every prefix of length <= 1 (quick) / 2 (thorough) over the alphabet
+        {
+            let mut vals: Vec<&String> = oracle.map.values().filter(|v| !v.is_empty()).collect();
+            vals.sort();
+            vals.dedup();
+            let mut alpha2 = syms(&oracle, &ALPHABET);
+            for v in vals {
+                if let Some((code, md)) = oracle.key_for_value(v) {
+                    alpha2.push(Sym { val: v.clone(), code, md });
+                }
+            }
+            let plen = env.tier.pick(1, 2);
+            let mut nall = 0u64;
+            for bits in 0..16u8 {
+                if !env.mine(bits as usize) {
+                    continue;
+                }
+                let spec = spec_for(bits);
+                let Ok(s) = Sess::new(spec, &root) else { continue };
+                for last in n..alpha2.len() {
+                    for l in 0..=plen {
+                        let mut idx = vec![0usize; l];
+                        loop {
+                            let mut steps: Vec<Step> = idx.iter().map(|&i| Step::K(i)).collect();
+                            steps.push(Step::K(last));
+                            steps.push(Step::Bs);
+                            nall += 1;
+                            out.begin_case(|| case_json(&spec, &alpha2, &steps));
+                            run_steps(&s, &spec, &alpha2, &steps, out, &mut t);
+                            // all digits free here (no pinned first digit)
+                            let mut k = l;
+                            let mut more = false;
+                            while k > 0 {
+                                k -= 1;
+                                idx[k] += 1;
+                                if idx[k] < n {
+                                    more = true;
+                                    break;
+                                }
+                                idx[k] = 0;
+                            }
+                            if !more {
+                                break;
+                            }
+                        }
+                    }
+                }
+            }
+            out.count("every_layout_value_after_short_prefixes", nall);
         }
         // random longer histories with backspaces
         let mut rng = env.rng("c12-random");
